@@ -1517,6 +1517,12 @@ class PathSum(object):
             return self.lookup_rows([(_const_tuple(key), val)
                                      for key, val in table[1]],
                                     list(k[1]), 0, st, node)
+        if is_boolean(k) and all(is_const(key) and isinstance(key[1], bool)
+                                 for key, _ in table[1]):
+            # a table indexed by a truth value: one truth test
+            return self.lookup_rows([((key[1],), val)
+                                     for key, val in table[1]], [k], 0, st,
+                                    node)
         for key, val in table[1]:
             a, pol = self.atom(op('==', k, key))
             d = self.decide(a, cur)
@@ -1712,6 +1718,27 @@ class PathSum(object):
                     v[1], (int, float)):
                 return const(-v[1])
             return None
+        if isinstance(e, ast.Call) and isinstance(
+                e.func, (ast.Name, ast.Attribute)) and module is not None \
+                and len(e.args) >= 2 and not e.keywords:
+            try:
+                ent = self.db.resolve_dotted(module, e.func)
+            except AnalysisError:
+                ent = None
+            if isinstance(ent, External) and ent.dotted == \
+                    'collections.namedtuple':
+                nm = self._literal(e.args[0], module, depth + 1)
+                f = self._literal(e.args[1], module, depth + 1)
+                names = None
+                if f is not None and is_const(f) and isinstance(f[1], str):
+                    names = tuple(f[1].replace(',', ' ').split())
+                elif f is not None and f[0] in ('tuple', 'list') and all(
+                        is_const(x) for x in f[1]):
+                    names = tuple(x[1] for x in f[1])
+                if nm is not None and is_const(nm) and names is not None \
+                        and len(e.args) == 2:
+                    return ('ntcls', nm[1], names)
+                return None
         if isinstance(e, ast.Call) and isinstance(e.func, ast.Name) and \
                 e.func.id in ('dict', 'tuple', 'list', 'frozenset', 'set') \
                 and module is not None and not any(
@@ -1813,6 +1840,12 @@ class PathSum(object):
     def getattr(self, b, attr, st, fi, node):
         if b[0] == 'nt' and attr in b[1]:
             return [(st, b[2][b[1].index(attr)])]
+        if b == NONE and not (attr.startswith('__') and attr.endswith('__')):
+            # None has no such attribute
+            st.outcome = ('raise', ('call', ('builtin', 'AttributeError'),
+                                    (const(attr),), (), next(self.uid)),
+                          node, 'attribute')
+            return [(st, BOT)]
         key = (b, attr)
         if key in st.heap:
             v = st.heap[key]
@@ -2397,6 +2430,29 @@ class PathSum(object):
         if nm == 'list' and len(args) == 1 and args[0][0] in ('tuple',
                                                               'list'):
             return [(st, ('list', args[0][1]))]
+        if nm == 'map' and len(args) == 2 and not kwargs:
+            seq = args[1]
+            if is_const(seq) and isinstance(seq[1], tuple):
+                seq = ('tuple', tuple(const(x) for x in seq[1]))
+            if seq[0] in ('tuple', 'list') and len(seq[1]) <= self.unroll:
+                # map over a literal sequence with a function that has no
+                # effect: the sequence of its results (lazy or not)
+                probe = st.fork()
+                n0 = len(probe.events)
+                vals = []
+                for item in seq[1]:
+                    try:
+                        res = self.apply(args[0], [item], {}, probe, fi, node)
+                    except AnalysisError:
+                        res = []
+                    if len(res) != 1 or res[0][0] is not probe or \
+                            probe.outcome is not None or \
+                            len(probe.events) != n0:
+                        vals = None
+                        break
+                    vals.append(res[0][1])
+                if vals is not None:
+                    return [(st, ('tuple', tuple(vals)))]
         if nm == 'dict' and not args:
             return [(st, ('dict', tuple((const(k), v)
                                         for k, v in kwargs.items())))]
